@@ -1653,3 +1653,565 @@ func checkFiniSafeBeforeInit(c *Ctx, p *Prog, rule, tname string) {
 	}
 	c.Check(n > 0 && bad == "", rule, tname+":Fini-before-Init", p.pos(fini.Pos()), fmt.Sprintf("%d use(s) on the shutdown path of channels and interfaces that Init creates, each behind a non-nil test or the running flag %s", n, bad))
 }
+
+// checkStyleChangeStartsFromReset: when drawCell changes the terminal's style it first takes everything
+// away (AttrOff) and then builds the new style up: attributes and the underline colour can only be
+// removed by the reset, so every colour selection and every attribute switch of the style-change
+// branch — in drawCell or in the helpers it calls for them — must be dominated by an emission of
+// AttrOff.  A reset that is only sent "when something has to go away" forgets what the attribute mask
+// does not record (underline colour, the reverse video sendFgBg derives on monochrome terminals).
+func checkStyleChangeStartsFromReset(c *Ctx, p *Prog, rule string) {
+	dc := p.Fn("tcell:(*tScreen).drawCell")
+	if dc == nil {
+		c.Undecided(rule, "tScreen.drawCell", "-", "not found")
+		return
+	}
+	building := map[string]bool{"SetFg": true, "SetBg": true, "SetFgBg": true, "SetFgRGB": true, "SetBgRGB": true, "SetFgBgRGB": true,
+		"Bold": true, "Underline": true, "Reverse": true, "Blink": true, "Dim": true, "Italic": true, "StrikeThrough": true,
+		"DoubleUnderline": true, "CurlyUnderline": true, "DottedUnderline": true, "DashedUnderline": true, "UnderlineColor": true, "UnderlineColorRGB": true}
+	fieldOf := func(in ssa.Instruction) string {
+		cc := callCommon(in)
+		if cc == nil {
+			return ""
+		}
+		for _, a := range cc.Args {
+			if ref, _, ok := loadedField(a); ok && ref.Owner == "terminfo.Terminfo" {
+				return ref.Name
+			}
+		}
+		return ""
+	}
+	// the function that switches the style: drawCell itself, or the helper it calls for it
+	// (`t.sendStyle(style)`): the one that emits AttrOff directly
+	host := dc
+	direct := func(f *ssa.Function) bool {
+		found := false
+		eachInstr(f, func(in ssa.Instruction) {
+			if fieldOf(in) == "AttrOff" {
+				found = true
+			}
+		})
+		return found
+	}
+	if !direct(dc) {
+		eachInstr(dc, func(in ssa.Instruction) {
+			if cc := callCommon(in); cc != nil {
+				if h := cc.StaticCallee(); h != nil && h.Pkg == p.Tcell && len(h.Blocks) > 0 && host == dc && direct(h) {
+					host = h
+				}
+			}
+		})
+	}
+	var resets []ssa.Instruction
+	type em struct {
+		anchor ssa.Instruction
+		field  string
+	}
+	var ems []em
+	for _, d := range deepInstrs(p, host, 1, nil) {
+		f := fieldOf(d.in)
+		switch {
+		case f == "AttrOff" && len(d.chain) == 0:
+			resets = append(resets, d.in)
+		case building[f]:
+			ems = append(ems, em{d.anchor, f})
+		}
+	}
+	if len(resets) == 0 || len(ems) == 0 {
+		c.Undecided(rule, "tScreen.drawCell:style-change-starts-from-reset", p.pos(dc.Pos()), fmt.Sprintf("%d emissions of AttrOff, %d style-building emissions found", len(resets), len(ems)))
+		return
+	}
+	bad := map[string]bool{}
+	for _, e := range ems {
+		ok := false
+		for _, r := range resets {
+			if instrDominates(r, e.anchor) {
+				ok = true
+			}
+		}
+		if !ok {
+			bad[e.field+"@"+p.pos(e.anchor.Pos())] = true
+		}
+	}
+	c.Check(len(bad) == 0, rule, "tScreen.drawCell:style-change-starts-from-reset", p.pos(dc.Pos()), fmt.Sprintf("%d style-building emission(s), each after the attribute reset on every path %v", len(ems), sortedKeys(bad)))
+}
+
+// checkKeyMatcherUsesTableEntry: the key a matched sequence decodes to is the key of its table entry —
+// for a one-byte sequence as for any other (wy50/wy60 bind ^J ^K ^L ^^ to the cursor keys and Home).
+// Every NewEventKey call of the key matcher gets, as its key, the `key` field of the matched tKeyCode,
+// on every path (a constant such as KeyRune among the sources hands the byte to NewEventKey's own
+// naming instead).
+func checkKeyMatcherUsesTableEntry(c *Ctx, p *Prog, rule string) {
+	fn := p.Fn("tcell:(*tScreen).parseFunctionKey")
+	if fn == nil {
+		c.Undecided(rule, "parseFunctionKey", "-", "not found")
+		return
+	}
+	n, bad := 0, ""
+	for _, d := range deepInstrs(p, fn, 1, nil) {
+		cc := callCommon(d.in)
+		if cc == nil || !strings.HasSuffix(calleeName(cc), "NewEventKey") || len(cc.Args) != 3 {
+			continue
+		}
+		n++
+		key := d.bindVal(cc.Args[0])
+		// every source, constants included
+		var srcs []ssa.Value
+		seenV := map[ssa.Value]bool{}
+		var walk func(v ssa.Value)
+		walk = func(v ssa.Value) {
+			if seenV[v] {
+				return
+			}
+			seenV[v] = true
+			if phi, isPhi := v.(*ssa.Phi); isPhi {
+				for _, e := range phi.Edges {
+					walk(e)
+				}
+				return
+			}
+			srcs = append(srcs, v)
+		}
+		walk(key)
+		for _, src := range srcs {
+			if _, isPhi := src.(*ssa.Phi); isPhi {
+				continue
+			}
+			src = d.bindVal(src)
+			if ref, _, ok := loadedField(src); ok && ref.Owner == "tcell.tKeyCode" && ref.Name == "key" {
+				continue
+			}
+			bad += "the key handed to NewEventKey at " + p.pos(d.in.Pos()) + " can be " + valName(src) + ", not the table entry's key; "
+		}
+	}
+	c.Check(n > 0 && bad == "", rule, "parseFunctionKey:event-from-table-entry", p.pos(fn.Pos()), fmt.Sprintf("%d key event(s) built, each with the matched entry's key %s", n, bad))
+}
+
+// checkHandBackSelectsNoColours: what Suspend and Fini write takes the application's modes away; nothing
+// on that path (disengage and the helpers it calls, two levels) selects a colour or switches an
+// attribute on — a helper shared with drawing (clearScreen re-selects the screen's default colours)
+// would leave them behind after the reset.
+func checkHandBackSelectsNoColours(c *Ctx, p *Prog, rule string) {
+	dis := p.Fn("tcell:(*tScreen).disengage")
+	if dis == nil {
+		c.Undecided(rule, "disengage", "-", "not found")
+		return
+	}
+	building := map[string]bool{"SetFg": true, "SetBg": true, "SetFgBg": true, "SetFgRGB": true, "SetBgRGB": true, "SetFgBgRGB": true,
+		"Bold": true, "Underline": true, "Reverse": true, "Blink": true, "Dim": true, "Italic": true, "StrikeThrough": true,
+		"DoubleUnderline": true, "CurlyUnderline": true, "DottedUnderline": true, "DashedUnderline": true, "UnderlineColor": true, "UnderlineColorRGB": true}
+	n, bad := 0, ""
+	for _, d := range deepInstrs(p, dis, 2, nil) {
+		cc := callCommon(d.in)
+		if cc == nil {
+			continue
+		}
+		for _, a := range cc.Args {
+			if ref, _, ok := loadedField(a); ok && ref.Owner == "terminfo.Terminfo" {
+				n++
+				if building[ref.Name] {
+					via := ""
+					if len(d.chain) > 0 {
+						if h := callCommon(d.chain[0]).StaticCallee(); h != nil {
+							via = " (through " + h.Name() + ", called at " + p.pos(d.chain[0].Pos()) + ")"
+						}
+					}
+					bad += "emits " + ref.Name + " at " + p.pos(d.in.Pos()) + via + "; "
+				}
+			}
+		}
+	}
+	c.Check(n >= 5 && bad == "", rule, "disengage:selects-no-colours", p.pos(dis.Pos()), fmt.Sprintf("%d capability emissions on the hand-back path, none selecting a colour or an attribute %s", n, bad))
+}
+
+// checkReportedSizeStoredWithEvent: t.w and t.h are the size the application was last told.  They are
+// stored only where the resize event is posted (the comparison with them is what decides whether an
+// event is due): a store elsewhere — keeping "the drawing bounds in step" after Resume — makes the
+// next resize() see nothing new and the event for a window that changed while the terminal was handed
+// back is never delivered.
+func checkReportedSizeStoredWithEvent(c *Ctx, p *Prog, rule, tname string) {
+	owner := "tcell." + tname
+	n, bad := 0, ""
+	for _, f := range p.modFns {
+		if f.Pkg != p.Tcell {
+			continue
+		}
+		var stores []*ssa.Store
+		stores = append(stores, storesTo(f, owner, "w")...)
+		stores = append(stores, storesTo(f, owner, "h")...)
+		if len(stores) == 0 {
+			continue
+		}
+		// the posts of this function: select states / sends on the event queue
+		var posts []ssa.Instruction
+		eachInstr(f, func(in ssa.Instruction) {
+			switch x := in.(type) {
+			case *ssa.Select:
+				for _, st := range x.States {
+					if st.Dir == types.SendOnly {
+						if ref, _, ok := loadedField(st.Chan); ok && ref.Owner == owner && ref.Name == "eventQ" {
+							posts = append(posts, in)
+						}
+					}
+				}
+			case *ssa.Send:
+				if ref, _, ok := loadedField(x.Chan); ok && ref.Owner == owner && ref.Name == "eventQ" {
+					posts = append(posts, in)
+				}
+			}
+		})
+		for _, st := range stores {
+			n++
+			ok := false
+			for _, po := range posts {
+				if instrDominates(st, po) {
+					ok = true
+				}
+			}
+			if !ok {
+				bad += fmt.Sprintf("%s stores the reported size at %s without posting the resize event; ", f.Name(), p.pos(st.Pos()))
+			}
+		}
+	}
+	c.Check(n >= 2 && bad == "", rule, tname+":reported-size-stored-with-the-event", "-", fmt.Sprintf("%d store(s) of the size last reported, each followed by the post of the resize event %s", n, bad))
+}
+
+// checkOperandsConsumedAlike: within one operator of the parameter language every way of completing it
+// takes the same number of operands off the stack.  Push calls of TParm are grouped by the first pop
+// of their round (the pop whose stack is the loop-carried one); in a group every push must sit on a
+// chain of the same number of pops.  A zero-divisor shortcut that pushes its 0 before the dividend was
+// popped leaves the dividend under the result.
+func checkOperandsConsumedAlike(c *Ctx, p *Prog, rule string) {
+	fn := p.Fn("terminfo:(*Terminfo).TParm")
+	if fn == nil {
+		c.Undecided(rule, "TParm", "-", "not found")
+		return
+	}
+	isPop := func(v ssa.Value) (*ssa.Call, bool) {
+		ex, ok := v.(*ssa.Extract)
+		if !ok || ex.Index != 1 {
+			return nil, false
+		}
+		call, ok := ex.Tuple.(*ssa.Call)
+		if !ok {
+			return nil, false
+		}
+		h := call.Call.StaticCallee()
+		if h == nil || h.Pkg != p.Terminfo || !popKindOfCallee(p, h) {
+			return nil, false
+		}
+		return call, true
+	}
+	// chains(S): for every way S came about (through phis inside the round), the pops from the
+	// round's first pop to S
+	type chain struct {
+		first *ssa.Call
+		n     int
+	}
+	var chainsOf func(s ssa.Value, depth int, seen map[ssa.Value]bool) []chain
+	chainsOf = func(s ssa.Value, depth int, seen map[ssa.Value]bool) []chain {
+		if seen[s] || depth > 12 {
+			return nil
+		}
+		seen[s] = true
+		defer delete(seen, s)
+		if call, ok := isPop(s); ok {
+			below := chainsOf(call.Call.Args[0], depth+1, seen)
+			if len(below) == 0 {
+				return []chain{{call, 1}}
+			}
+			var out []chain
+			for _, b := range below {
+				if b.first == nil {
+					out = append(out, chain{call, 1})
+				} else {
+					out = append(out, chain{b.first, b.n + 1})
+				}
+			}
+			return out
+		}
+		if phi, ok := s.(*ssa.Phi); ok {
+			// the loop-carried stack: the start of a round
+			if loopsOf(fn)[phi.Block()] != nil {
+				return []chain{{nil, 0}}
+			}
+			var out []chain
+			for _, e := range phi.Edges {
+				out = append(out, chainsOf(e, depth+1, seen)...)
+			}
+			return out
+		}
+		return []chain{{nil, 0}}
+	}
+	groups := map[*ssa.Call]map[int][]string{}
+	nPush := 0
+	eachInstr(fn, func(in ssa.Instruction) {
+		cc := callCommon(in)
+		if cc == nil {
+			return
+		}
+		h := cc.StaticCallee()
+		if h == nil || h.Pkg != p.Terminfo || h.Signature.Recv() == nil || h.Signature.Params().Len() != 1 || h.Signature.Results().Len() != 1 ||
+			!types.Identical(h.Signature.Results().At(0).Type(), h.Signature.Recv().Type()) {
+			return
+		}
+		nPush++
+		for _, ch := range chainsOf(cc.Args[0], 0, map[ssa.Value]bool{}) {
+			if ch.first == nil {
+				continue
+			}
+			if groups[ch.first] == nil {
+				groups[ch.first] = map[int][]string{}
+			}
+			groups[ch.first][ch.n] = append(groups[ch.first][ch.n], p.pos(in.Pos()))
+		}
+	})
+	bad := ""
+	for first, byN := range groups {
+		if len(byN) > 1 {
+			bad += fmt.Sprintf("the operator that starts with the pop at %s pushes after a different number of pops on different paths: %v; ", p.pos(first.Pos()), byN)
+		}
+	}
+	c.Check(nPush >= 10 && bad == "", rule, "TParm:operands-consumed-alike", p.pos(fn.Pos()), fmt.Sprintf("%d pushes in %d operator rounds, each round consuming the same number of operands on every path %s", nPush, len(groups), bad))
+}
+
+// checkWideDirtyIndependentOfMarker: replacing a wide rune dirties every column it covered, whatever
+// the state of the base cell's own dirty marker: the neighbour-dirtying calls of SetContent and Fill
+// are not control-dependent on lastMain (a base cell that is already marked dirty says nothing about
+// its neighbours: SetDirty(x, y, true) and UnlockCell mark one cell).
+func checkWideDirtyIndependentOfMarker(c *Ctx, p *Prog, rule string) {
+	n, bad := 0, ""
+	for _, name := range []string{"SetContent", "Fill"} {
+		fn := p.Fn("tcell:(*CellBuffer)." + name)
+		if fn == nil {
+			c.Undecided(rule, name, "-", "not found")
+			continue
+		}
+		eachInstr(fn, func(in ssa.Instruction) {
+			cc := callCommon(in)
+			isSite := false
+			if cc != nil && strings.HasSuffix(calleeName(cc), "CellBuffer).SetDirty") && len(cc.Args) == 4 {
+				if v, ok := constBool(cc.Args[3]); !ok || v {
+					isSite = true
+				}
+			}
+			if st, ok := in.(*ssa.Store); ok {
+				if ref, _, isF := fieldAddrRef(st.Addr); isF && ref.Owner == "tcell.cell" && ref.Name == "lastMain" {
+					if k, isK := constInt(st.Val); isK && k == 0 {
+						isSite = true
+					}
+				}
+			}
+			if !isSite {
+				return
+			}
+			n++
+			for _, g := range rawGuardsAt(in.Block()) {
+				if mentionsField(g.Cond, "tcell.cell", "lastMain", 4) {
+					bad += name + ": the neighbour is dirtied at " + p.pos(in.Pos()) + " only depending on the base cell's dirty marker; "
+				}
+			}
+		})
+	}
+	c.Check(n >= 2 && bad == "", rule, "wide-rune:neighbours-dirtied-whatever-the-marker", "-", fmt.Sprintf("%d neighbour-dirtying site(s) in SetContent and Fill, none behind a test of lastMain %s", n, bad))
+}
+
+// checkEventPayloadOwnsMemory: an event leaves the library's goroutines and is read by the application
+// without any lock: the bytes a clipboard event carries must be memory made for it (a fresh slice),
+// never a window into the input buffer, which the main loop resets and refills with the next input.
+// Every argument of NewEventClipboard in the input parsers (and their helpers, with the helper's
+// parameters bound to the caller's values) has a made slice as its root.
+func checkEventPayloadOwnsMemory(c *Ctx, p *Prog, rule string) {
+	n, bad := 0, ""
+	for _, pi := range inputParsers(p) {
+		for _, d := range deepInstrs(p, pi.fn, 1, nil) {
+			cc := callCommon(d.in)
+			if cc == nil || !strings.HasSuffix(calleeName(cc), "NewEventClipboard") || len(cc.Args) != 1 {
+				continue
+			}
+			n++
+			root := sliceRoot(d.bindVal(sliceRoot(cc.Args[0])))
+			root = sliceRoot(d.bindVal(root))
+			switch x := root.(type) {
+			case *ssa.MakeSlice:
+				continue
+			case *ssa.Call:
+				bad += fmt.Sprintf("the payload at %s is a window into %s; ", p.pos(d.in.Pos()), calleeName(&x.Call))
+			default:
+				bad += fmt.Sprintf("the payload at %s is %s, not memory made for the event; ", p.pos(d.in.Pos()), valName(root))
+			}
+		}
+	}
+	c.Check(n > 0 && bad == "", rule, "clipboard-event:payload-owns-its-memory", "-", fmt.Sprintf("%d clipboard event(s) built by the parsers, each around a slice made for it %s", n, bad))
+}
+
+// checkRegistrationUnconditional: every shipped entry registers itself through AddTerminfo; the stores
+// into the registry are not control-dependent on what the entry contains (an entry judged "unusable" —
+// vt52 has no attribute reset — would silently stop resolving).
+func checkRegistrationUnconditional(c *Ctx, p *Prog, rule string) {
+	add := p.Fn("terminfo:AddTerminfo")
+	if add == nil {
+		c.Undecided(rule, "AddTerminfo", "-", "not found")
+		return
+	}
+	var reads func(v ssa.Value, d int) string
+	reads = func(v ssa.Value, d int) string {
+		if d < 0 || v == nil {
+			return ""
+		}
+		if ref, _, ok := loadedField(v); ok && ref.Owner == "terminfo.Terminfo" && ref.Name != "Aliases" {
+			return ref.Name
+		}
+		if _, isPhi := v.(*ssa.Phi); isPhi {
+			return ""
+		}
+		if call, isCall := v.(*ssa.Call); isCall {
+			// a predicate over the entry (`t.usable()`): what it reads counts
+			if h := call.Call.StaticCallee(); h != nil && h.Pkg == p.Terminfo && len(h.Blocks) > 0 && d > 0 {
+				found := ""
+				eachInstr(h, func(in ssa.Instruction) {
+					for _, op := range in.Operands(nil) {
+						if *op != nil && found == "" {
+							if ref, _, ok := loadedField(*op); ok && ref.Owner == "terminfo.Terminfo" && ref.Name != "Aliases" {
+								found = ref.Name + " (in " + h.Name() + ")"
+							}
+						}
+					}
+				})
+				if found != "" {
+					return found
+				}
+			}
+		}
+		if in, ok := v.(ssa.Instruction); ok {
+			for _, op := range in.Operands(nil) {
+				if *op != nil {
+					if s := reads(*op, d-1); s != "" {
+						return s
+					}
+				}
+			}
+		}
+		return ""
+	}
+	n, bad := 0, ""
+	eachInstr(add, func(in ssa.Instruction) {
+		if _, ok := in.(*ssa.MapUpdate); !ok {
+			return
+		}
+		n++
+		for _, g := range rawGuardsAt(in.Block()) {
+			if f := reads(g.Cond, 3); f != "" {
+				bad += "the registration at " + p.pos(in.Pos()) + " depends on the entry's " + f + "; "
+			}
+		}
+	})
+	c.Check(n > 0 && bad == "", rule, "AddTerminfo:registers-whatever-the-entry-holds", p.pos(add.Pos()), fmt.Sprintf("%d store(s) into the registry, none behind a test of the entry's contents %s", n, bad))
+}
+
+// checkColorNameLookupUnconditional: GetColor resolves every name of the table: the lookup in
+// ColorNames is reached for every argument that is not of the "#rrggbb" form — no test of the name's
+// length (other than the 7 of the hex form) or of anything else stands before it.
+func checkColorNameLookupUnconditional(c *Ctx, p *Prog, rule string) {
+	fn := p.Fn("tcell:GetColor")
+	if fn == nil || len(fn.Params) != 1 {
+		c.Undecided(rule, "GetColor", "-", "not found")
+		return
+	}
+	name := fn.Params[0]
+	n, bad := 0, ""
+	for _, d := range deepInstrs(p, fn, 1, nil) {
+		lk, ok := d.in.(*ssa.Lookup)
+		if !ok {
+			continue
+		}
+		u, isU := lk.X.(*ssa.UnOp)
+		if !isU {
+			continue
+		}
+		g, isG := u.X.(*ssa.Global)
+		if !isG || g.Name() != "ColorNames" {
+			continue
+		}
+		n++
+		for _, gd := range d.rawGuards() {
+			bo, isBO := gd.Cond.(*ssa.BinOp)
+			if !isBO {
+				continue
+			}
+			// len(name) compared with a constant other than 7
+			if call, isCall := bo.X.(*ssa.Call); isCall {
+				if b, isB := call.Call.Value.(*ssa.Builtin); isB && b.Name() == "len" && len(call.Call.Args) == 1 && d.bindVal(call.Call.Args[0]) == ssa.Value(name) {
+					if k, isK := constInt(bo.Y); !isK || k != 7 {
+						bad += "the name lookup at " + p.pos(lk.Pos()) + " is behind a test of the name's length against " + valName(bo.Y) + "; "
+					}
+				}
+			}
+		}
+	}
+	c.Check(n > 0 && bad == "", rule, "GetColor:every-name-looked-up", p.pos(fn.Pos()), fmt.Sprintf("%d lookup(s) in ColorNames, reached whatever the length of the name %s", n, bad))
+}
+
+// checkWebMouseAlwaysPosts: a mouse callback of the page becomes an event unless the mode it belongs
+// to is switched off: a return of onMouseEvent that no postEvent precedes may depend on the mouse
+// flags and on the callback's arguments, not on anything the screen remembers about earlier reports.
+func checkWebMouseAlwaysPosts(c *Ctx, p *Prog, rule string) {
+	fn := p.Fn("tcell:(*wScreen).onMouseEvent")
+	if fn == nil {
+		c.Undecided(rule, "wScreen.onMouseEvent", "-", "not found")
+		return
+	}
+	var posts []ssa.Instruction
+	eachInstr(fn, func(in ssa.Instruction) {
+		if cc := callCommon(in); cc != nil && strings.HasSuffix(calleeName(cc), "wScreen).postEvent") {
+			posts = append(posts, in)
+		}
+	})
+	n, bad := 0, ""
+	for _, r := range returnsOf(fn) {
+		posted := false
+		for _, po := range posts {
+			if instrDominates(po, r) {
+				posted = true
+			}
+		}
+		if posted {
+			continue
+		}
+		n++
+		for _, g := range rawGuardsAt(r.Block()) {
+			for _, f := range wFieldsIn(g.Cond, 5) {
+				if f != "mouseFlags" {
+					bad += "the report is dropped at " + p.pos(r.Pos()) + " depending on t." + f + "; "
+				}
+			}
+		}
+	}
+	c.Check(len(posts) > 0 && bad == "", rule, "onMouseEvent:dropped-only-by-mode", p.pos(fn.Pos()), fmt.Sprintf("%d return(s) without an event, each depending on the mouse flags and the callback's arguments only %s", n, bad))
+}
+
+// wFieldsIn: the wScreen fields v is computed from (loads, through phis of locals copied under the lock).
+func wFieldsIn(v ssa.Value, depth int) []string {
+	var out []string
+	seen := map[ssa.Value]bool{}
+	var walk func(v ssa.Value, d int)
+	walk = func(v ssa.Value, d int) {
+		if d < 0 || v == nil || seen[v] {
+			return
+		}
+		seen[v] = true
+		if ref, _, ok := loadedField(v); ok && ref.Owner == "tcell.wScreen" {
+			out = append(out, ref.Name)
+			return
+		}
+		if in, ok := v.(ssa.Instruction); ok {
+			for _, op := range in.Operands(nil) {
+				if *op != nil {
+					walk(*op, d-1)
+				}
+			}
+		}
+	}
+	walk(v, depth)
+	return out
+}
